@@ -46,7 +46,7 @@ BigType(ix, nf, t) == [name |-> "Big", record |-> FALSE, cases |-> BigCases(0, i
 
 \* ------------------------------------------------------------------ C10
 AllFeatures == {"metadata", "input_redeemer", "mint", "mint_redeemer", "burn_same", "burn_other_asset", "burn_all",
-                "optional_empty", "optional_full", "reference", "reference_twice", "collateral", "signers", "signers_dup",
+                "optional_empty", "optional_full", "reference", "reference_twice", "collateral", "signers", "signers_dup", "signers_apart",
                 "datum", "second_input", "validity"}
 
 VARIABLES c
@@ -111,7 +111,8 @@ C10Prog(fs) ==
                  !.references = (IF has("reference") THEN <<[name |-> "rf", ref |-> [k |-> "utxo_ref", txid |-> Tx1, index |-> 2]]>> ELSE <<>>)
                                 \o (IF has("reference_twice") THEN <<[name |-> "rf2", ref |-> [k |-> "utxo_ref", txid |-> Tx1, index |-> 2]]>> ELSE <<>>),
                  !.collateral = IF has("collateral") THEN [k |-> "some", from |-> Sender, min_amount |-> AdaE(Lit(5)), ref |-> Absent] ELSE Absent,
-                 !.signers = IF has("signers") THEN [k |-> "some", items |-> <<Sender>> \o (IF has("signers_dup") THEN <<Sender, Hex(KeyHash)>> ELSE <<>>)] ELSE Absent,
+                 !.signers = IF has("signers") THEN [k |-> "some", items |-> <<Sender>> \o (IF has("signers_dup") THEN <<Sender, Hex(KeyHash)>> ELSE <<>>)
+                                                                         \o (IF has("signers_apart") THEN <<Receiver, Sender, MyParty, Receiver>> ELSE <<>>)] ELSE Absent,
                  !.validity = IF has("validity") THEN [k |-> "some", since |-> TipSlot, until |-> Absent] ELSE Absent]
         base == EnvOf(1)
     IN  [prog |-> [decls |-> Decls, tx |-> tx],
